@@ -743,9 +743,10 @@ func (m *repoManager) loadVersion0() error {
 			}
 			for name, data := range r.data {
 				if data.IsDeleted() {
-					if err := r.deleteDataByName(name); err != nil {
-						dvid.TimeCriticalf("tried to restart deletion of data %q but failed: %v\n", name, err)
-					}
+					// The mark is in the store already (it was just loaded), and repoT.save cannot be used
+					// before the manager under construction is published: only the deletion is started.
+					dvid.TimeInfof("Resuming deletion of data %q\n", name)
+					go r.deleteData(data)
 				}
 			}
 		}
